@@ -13,16 +13,9 @@ Open Scope N_scope.
    in flight, further local calls, loss of the connection) the canceller's subscriber is told nothing more *)
 Theorem C09_stream_cancel u e oid o : Inv e -> nth_error (objs e) oid = Some o -> o_kind o = KRSReq ->
   ep_step u e (LCancel oid) = (finish e (o_sid o), [XEnq (f_cancel (o_sid o))]) /\
-  forall ls, no_late (finish e (o_sid o)) ls oid -> dsigs oid (concat (snd (ep_run (finish e (o_sid o)) ls))) = [].
+  forall ls, dsigs oid (concat (snd (ep_run (finish e (o_sid o)) ls))) = [].
 Proof. exact (rs_cancel_silences u e oid o). Qed.
 Print Assumptions C09_stream_cancel.
-
-(* ... and that premise is vacuous for a stream subscription: in EVERY continuation whatsoever *)
-Theorem C09_stream_cancel_unconditional u e oid o : Inv e -> nth_error (objs e) oid = Some o -> o_kind o = KRSReq ->
-  ep_step u e (LCancel oid) = (finish e (o_sid o), [XEnq (f_cancel (o_sid o))]) /\
-  forall ls, dsigs oid (concat (snd (ep_run (finish e (o_sid o)) ls))) = [].
-Proof. exact (rs_cancel_silences_always u e oid o). Qed.
-Print Assumptions C09_stream_cancel_unconditional.
 
 (* elements in flight for the cancelled stream are dropped without a trace *)
 Theorem C09_inflight_dropped e sid ign co nx md d o u : gone e sid -> sid <> CONNECTION_STREAM_ID ->
@@ -86,10 +79,14 @@ Theorem C09_peer_cancel_isolated e f o u k : WF e -> CWF (cachek e) -> k <> fsid
 Proof. exact (recv_frame_local e f o u k). Qed.
 Print Assumptions C09_peer_cancel_isolated.
 
-(* REFUTED for a channel whose own sending direction is still open (KF-C09-channel-cancel-inflight, part of F16):
-   cancel() closes only the receiving direction; an element in flight is still delivered to the canceller *)
-Theorem C09_channel_cancel_refuted :
-  snd (recv_frame (fst (ep_step true f16_ep (LCancel 0))) (FPayload 1 false false false true [] [x07]) ONone true)
-  = [XCb 0 (SNext [] [x07] false)].
-Proof. exact channel_cancel_inflight_delivered. Qed.
-Print Assumptions C09_channel_cancel_refuted.
+(* a channel whose own sending direction is still open stays registered after cancel() (finding F16, see C10), but its
+   receive direction is closed: elements still in flight are dropped (this used to be finding
+   KF-C09-channel-cancel-inflight; repaired in the repository) *)
+Theorem C09_channel_cancel_inflight_dropped e oid o sid ign fo co nx md d u : is_chan (o_kind o) = true -> o_recv o = true ->
+  handler_frame e oid o (FPayload sid ign fo co nx md d) u = (e, [], false).
+Proof. exact (channel_closed_payload_silent e oid o sid ign fo co nx md d u). Qed.
+Print Assumptions C09_channel_cancel_inflight_dropped.
+Theorem C09_channel_cancel_example :
+  snd (recv_frame (fst (ep_step true f16_ep (LCancel 0))) (FPayload 1 false false false true [] [x07]) ONone true) = [].
+Proof. exact channel_cancel_inflight_dropped. Qed.
+Print Assumptions C09_channel_cancel_example.
